@@ -368,6 +368,26 @@ fn worker(batch: &str, o: &Opts, out: &mut dyn FnMut(String)) {
                 }
             }
         }
+        "dechuge" => {
+            // strips and sheets of 8.4 million pixels and more (row-band splits: `h - first_row`, `h / workers` with h = 1, 9 ...)
+            for (k, &(w, h, sx, sy)) in [(8_388_611usize, 1usize, 0u8, 0u8), (1_048_577, 9, 0, 0), (2_097_154, 4, 1, 1), (3840, 2160, 1, 1), (16, 524_289, 0, 0)].iter().enumerate() {
+                let c = Cfg { mc: MC_STD[k % 7], tc: 1, cp: 1, full: k % 2 == 0, n: 8, ssx: sx, ssy: sy };
+                let mut s = format!("\"ev\":\"total\",\"stage\":\"dec\",\"cfg\":{},\"st\":8,\"input\":\"codes\",\"npx\":{},\"w\":{w},\"h\":{h},", c.json(), w * h);
+                run_guarded(&mut s, |b| {
+                    let mut f: Frame<u8> = Frame { planes: [yuvxyb::Plane::new(w, h, 0, 0, 0, 0), yuvxyb::Plane::new(w >> sx, h >> sy, sx as usize, sy as usize, 0, 0), yuvxyb::Plane::new(w >> sx, h >> sy, sx as usize, sy as usize, 0, 0)] };
+                    for p in f.planes.iter_mut() {
+                        for (i, v) in p.data.iter_mut().enumerate() {
+                            *v = (i % 251) as u8;
+                        }
+                    }
+                    let y = Yuv::<u8>::new(f, c.yuv_config()).map_err(|e| format!("ctor:{}", crate::frames::err_name_yuv(e)))?;
+                    let d = Rgb::try_from(&y).map_err(|e| crate::frames::err_name_conv(e).to_string())?.into_data();
+                    let _ = write!(b, "\"nonfinite\":{},\"len\":{},", nonfinite(&d), d.len());
+                    Ok(())
+                });
+                out(s);
+            }
+        }
         "lowdepth" => {
             // (C07 only) the constructor accepts u8 frames whatever `bit_depth` says (the sample scan is for 16-bit storage),
             // also depths 1..=7 with samples above 2^n - 1: whatever such a frame decodes TO, every access must stay inside
@@ -464,6 +484,10 @@ pub fn batches(for_c07: bool) -> Vec<String> {
     for b in ["log+tf:18:lin", "log+tf:1:gam", "log+prim:9:to709", "log+float", "log+enc:1", "log+enc:8", "log+encbig", "log+decgeom", "log+chain"] {
         v.push(b.to_string());
     }
+    for b in ["small+float", "small+enc:1", "small+tf:16:lin", "small+prim:9:to709", "small+decgeom", "small+chain", "small+encgeom", "cpu1+float", "cpu1+encbig", "cpu1+tf:13:gam", "cpu1+dechuge", "cpu1+chain"] {
+        v.push(b.to_string());
+    }
+    v.push("dechuge".to_string());
     v.push("encgeom".to_string());
     v.push("decgeom".to_string());
     v.push("chain".to_string());
@@ -498,6 +522,19 @@ pub fn worker_main(batch: &str, o: &Opts) {
     } else {
         batch
     };
+    // HOSTS.  "cpu1+": this process was started pinned to one CPU (by gen_c13, through taskset).  "small+": the batch
+    // runs on a thread with a 128 KiB stack (the default of musl and of many FFI callers); a stack overflow kills the
+    // process, which gen_c13 reports as an abort.  What a conversion does must not depend on either.
+    let batch = batch.strip_prefix("cpu1+").unwrap_or(batch);
+    if let Some(b) = batch.strip_prefix("small+") {
+        let (b, o2) = (b.to_string(), Opts { out: o.out.clone(), plan: o.plan.clone(), as_prop: o.as_prop.clone(), ..*o });
+        let h = std::thread::Builder::new().stack_size(128 * 1024).spawn(move || run_batch(&b, &o2)).expect("spawn small-stack thread");
+        let _ = h.join();
+        return;
+    }
+    run_batch(batch, o);
+}
+fn run_batch(batch: &str, o: &Opts) {
     let stdout = std::io::stdout();
     let mut lock = stdout.lock();
     worker(batch, o, &mut |s| {
@@ -519,7 +556,14 @@ pub fn gen_c13(sh: &mut Shards, o: &Opts, only: Option<&str>) -> serde_json::Val
         idx += par;
         let mut kids = Vec::new();
         for b in group {
-            let child = Command::new(&exe)
+            let mut cmd = if b.starts_with("cpu1+") && std::path::Path::new("/usr/bin/taskset").exists() {
+                let mut c = Command::new("/usr/bin/taskset");
+                c.args(["-c", "0"]).arg(&exe);
+                c
+            } else {
+                Command::new(&exe)
+            };
+            let child = cmd
                 .args(["c13worker", b, "--tier", if o.thorough { "thorough" } else { "quick" }, "--seed", &o.seed.to_string()])
                 .stdout(Stdio::piped())
                 .stderr(Stdio::null())
